@@ -353,14 +353,13 @@ func (c *Ctx) LockPairingRule(rule string, pkgs []string, cfg *lockCfg, exceptio
 	return
 }
 
-
 // ---- guarded-by ------------------------------------------------------------------------------------------------
 
 type guardSpec struct {
-	Type      string   // "aqua/event:Feed"
-	Lock      string   // lock field name ("mu", "sendLock")
-	Fields    []string // guarded field names
-	WriteExcl bool     // writes need the exclusive lock (RWMutex)
+	Type      string            // "aqua/event:Feed"
+	Lock      string            // lock field name ("mu", "sendLock")
+	Fields    []string          // guarded field names
+	WriteExcl bool              // writes need the exclusive lock (RWMutex)
 	Exempt    map[string]string // function short name -> reason (constructors, init under sync.Once, ...)
 }
 
